@@ -708,6 +708,26 @@ def run(ctx):
     # ------------------------------------------------------------------ __eq__
     asym = None
     neq = 0
+
+    def eqs(a, b):
+        """`a == b` as a token: '1' / '0' / 'err-<exception>' (a broken implementation must not crash the harness)"""
+        try:
+            return str(int(bool(a == b)))
+        except AssertionError:
+            return 'err-assertion'
+        except Exception as ex:
+            return 'err-' + type(ex).__name__
+
+    def eq_oracle(k1, p1, k2, p2):
+        def f():
+            a = bspline.KnotVector(np.array(k1, dtype=float), p1); b = bspline.KnotVector(np.array(k2, dtype=float), p2)
+            r = [eqs(a, b), eqs(b, a), eqs(a, a), eqs(b, b)]
+            if r[0] != r[1]:
+                return 'kv1 == kv2 gives %s, kv2 == kv1 gives %s' % (r[0], r[1])
+            if r[2] != '1' or r[3] != '1':
+                return 'a knot vector compared with itself gives %s / %s' % (r[2], r[3])
+            return None
+        return f
     for (k, p, style) in kvs[: (300 if quick else 2000)]:
         K1 = bspline.KnotVector(k.copy(), p)
         variants = [(k.copy(), p), (k.copy(), p + 1), (k[:-1].copy(), p)]
@@ -721,16 +741,42 @@ def run(ctx):
                 K2 = bspline.KnotVector(np.ascontiguousarray(k2), p2)
             except AssertionError:
                 continue
-            e12 = bool(K1 == K2); e21 = bool(K2 == K1)
-            S.add('eq %d %s %d %s %s %s' % (p, plist(k, frac), p2, plist(k2, frac), frac(ATOL), frac(RTOL)), str(int(e12)), 'eq', None,
+            e12 = eqs(K1, K2); e21 = eqs(K2, K1)
+            orc_ = eq_oracle(k.tolist(), p, np.asarray(k2).tolist(), p2)
+            S.add('eq %d %s %d %s %s %s' % (p, plist(k, frac), p2, plist(k2, frac), frac(ATOL), frac(RTOL)), e12, 'eq', orc_,
                   {'kv1': k.tolist(), 'p1': p, 'kv2': np.asarray(k2).tolist(), 'p2': p2})
-            S.add('eq %d %s %d %s %s %s' % (p2, plist(k2, frac), p, plist(k, frac), frac(ATOL), frac(RTOL)), str(int(e21)), 'eq', None,
+            S.add('eq %d %s %d %s %s %s' % (p2, plist(k2, frac), p, plist(k, frac), frac(ATOL), frac(RTOL)), e21, 'eq', orc_,
                   {'kv1': np.asarray(k2).tolist(), 'p1': p2, 'kv2': k.tolist(), 'p2': p})
             neq += 1
-            if not bool(K2 == K2):
-                ctx.violation('eq-reflexive', 'KnotVector == itself is False', {'kv': np.asarray(k2).tolist(), 'p': p2}, True)
+            if eqs(K2, K2) != '1':
+                ctx.violation('eq-reflexive', 'KnotVector == itself gives %s' % eqs(K2, K2), {'kv': np.asarray(k2).tolist(), 'p': p2}, True)
             if e12 != e21 and asym is None:
                 asym = {'kv1': k.tolist(), 'p1': p, 'kv2': np.asarray(k2).tolist(), 'p2': p2, 'kv1==kv2': e12, 'kv2==kv1': e21}
+    # a repeated knot against two knots a tiny distance apart: A = kv.refine([x]) at an existing breakpoint, B = kv.refine([x + eps]);
+    # both orders, through the model, plus the direct symmetry / reflexivity test
+    for (k, p, style) in kvs[: (200 if quick else 2000)]:
+        K0 = bspline.KnotVector(k.copy(), p)
+        mesh = np.unique(k)
+        x = float(rng.choice(mesh[:-1]))
+        for eps in (1e-12, 1e-10, 3e-9, 4e-8):
+            e_ = eps * max(1.0, abs(x))
+            try:
+                A = K0.refine(np.array([x])); B = K0.refine(np.array([x + e_]))
+            except AssertionError:
+                continue
+            eAB = eqs(A, B); eBA = eqs(B, A)
+            orc_ = eq_oracle(A.kv.tolist(), p, B.kv.tolist(), p)
+            S.add('eq %d %s %d %s %s %s' % (p, plist(A.kv, frac), p, plist(B.kv, frac), frac(ATOL), frac(RTOL)), eAB, 'eq', orc_,
+                  {'kv1': A.kv.tolist(), 'p1': p, 'kv2': B.kv.tolist(), 'p2': p})
+            S.add('eq %d %s %d %s %s %s' % (p, plist(B.kv, frac), p, plist(A.kv, frac), frac(ATOL), frac(RTOL)), eBA, 'eq', orc_,
+                  {'kv1': B.kv.tolist(), 'p1': p, 'kv2': A.kv.tolist(), 'p2': p})
+            neq += 1
+            if eqs(A, A) != '1' or eqs(B, B) != '1':
+                ctx.violation('eq-reflexive', 'KnotVector == itself gives %s / %s' % (eqs(A, A), eqs(B, B)), {'kv': B.kv.tolist(), 'p': p}, True)
+            if eAB != eBA and (asym is None or 'refine' not in asym):
+                asym = {'refine': 'A = kv.refine([%r]), B = kv.refine([%r]) for kv = KnotVector(%s, %d): A == B is %s, B == A is %s'
+                        % (x, x + e_, k.tolist(), p, eAB, eBA), 'kv1': A.kv.tolist(), 'kv2': B.kv.tolist(), 'p1': p, 'p2': p,
+                        'kv1==kv2': eAB, 'kv2==kv1': eBA}
     ctx.count('__eq__ pairs', neq)
     # directed search: b' = b + (atol + rtol*b) rounded to neighbouring doubles (see Props.C19.eq_not_symm for the exact-arithmetic witness)
     for b in [1.0, 2.0, 10.0, 0.5, 1e3, 1e6] + [float(x) for x in rng.uniform(1, 1e6, size=20)]:
@@ -752,7 +798,7 @@ def run(ctx):
         if asym is not None and 'make_knots' in asym:
             break
     if asym is not None:
-        ctx.violation('kv-eq-asymmetric', 'KnotVector.__eq__ is not symmetric: %s' % asym.get('make_knots', 'see replay'), asym, True)
+        ctx.violation('kv-eq-asymmetric', 'KnotVector.__eq__ is not symmetric: %s' % asym.get('make_knots', asym.get('refine', 'see replay')), asym, True)
 
     def skip(e, g):
         return g == 'edge'
